@@ -635,7 +635,13 @@ class CompoundInterval(Location):
             raise InvalidPositionException("Relative end must be within the size of the interval")
         # if start == end, then just return a simple interval
         elif relative_start == relative_end:
-            start_on_parent = self.relative_to_parent_pos(relative_start)
+            if relative_start == len(self):
+                # 0bp interval at the 3' end, which SingleInterval also accepts; relative_to_parent_pos()
+                # cannot address the position one past the last base
+                self.strand.assert_directional()
+                start_on_parent = self.end if self.strand == Strand.PLUS else self.start
+            else:
+                start_on_parent = self.relative_to_parent_pos(relative_start)
             return SingleInterval(
                 start_on_parent,
                 start_on_parent,
